@@ -36,7 +36,7 @@ def gen_conf(rng, i):
         for key, g in (("env", lambda: smap("E")), ("before", lambda: sol(["true"])), ("after", lambda: sol(["true", "echo after"][:rng.randint(1, 2)])),
                        ("allow_failure", lambda: rng.choice([True, False, 1, 0, "true", "false"])), ("timeout", lambda: rng.choice(["30s", "1m", 30000000000, 45000000000])),
                        ("dir", lambda: "/tmp"), ("description", lambda: "task %d" % k), ("condition", lambda: rng.choice(["true", "exit 1"])),
-                       ("export_as", lambda: "OUT%d" % k), ("interactive", lambda: False), ("name", lambda: "named%d" % k),
+                       ("exportAs", lambda: "OUT%d" % k), ("interactive", lambda: False), ("name", lambda: "named%d" % k),
                        ("variations", lambda: [{"VAR1": rng.choice(["a", "b"])}, {"VAR1": "c", "VAR2": "d"}][:rng.randint(1, 2)])):
             if rng.random() < 0.45:
                 t[key] = g()
@@ -70,6 +70,22 @@ def gen_conf(rng, i):
         conf["variables"] = smap("g")
     if rng.random() < 0.2:
         conf["debug"] = False
+    if rng.random() < 0.35:
+        # names made of digits (a YAML reader sees integer keys), in tasks, env and variables
+        ren = {n: str(10 + k) for k, n in enumerate(sorted(tasks))}
+        conf["tasks"] = {ren[n]: t for n, t in tasks.items()}
+        for stages in conf["pipelines"].values():
+            for st in stages:
+                if st.get("task") in ren:
+                    st["task"] = ren[st["task"]]
+        for w in conf.get("watchers", {}).values():
+            w["task"] = ren.get(w["task"], w["task"])
+        for t in conf["tasks"].values():
+            t.setdefault("env", {})["E7"] = "seven"
+            t["variables"]["42"] = "answer"
+        conf["_rawkeys"] = True
+    if rng.random() < 0.35:
+        conf["_inc"] = {"tasks": {"inc9": {"command": ['echo "inc9" >> "$PROJ/out"'], "env": {"E1": 5}}}, "variables": {"fromimport": "yes"}}
     return conf
 
 
@@ -123,17 +139,27 @@ def observe(workdir, tag, confs, norun=()):
     jobs, meta = [], []
     for key, conf in confs:
         for fmt in ("yaml", "json", "toml"):
+            extra = {}
+            doc = {k: v for k, v in conf.items() if not k.startswith("_")}
+            if "_inc" in conf:                       # an imported file of the same format, next to the configuration
+                doc["import"] = ["inc." + fmt]
             try:
-                text = fmtlib.serialise(conf, fmt)
+                text = fmtlib.serialise(doc, fmt)
+                if "_inc" in conf:
+                    extra["inc." + fmt] = fmtlib.serialise(conf["_inc"], fmt)
             except fmtlib.NotTomlable:
                 text = None
+            if text is not None and fmt == "yaml" and conf.get("_rawkeys"):
+                # names made of digits written the way people write them in YAML: unquoted (YAML reads an integer key)
+                text = re.sub(r'^(\s*)"(\d+)":', r"\1\2:", text, flags=re.M)
+                extra = {k: re.sub(r'^(\s*)"(\d+)":', r"\1\2:", v, flags=re.M) for k, v in extra.items()}
             fn = "cfg." + fmt
             cmds = [["list"]] + [["show", t] for t in sorted(conf.get("tasks", {}))] + [["graph", p] for p in sorted(conf.get("pipelines", {}))] + \
                    [["--raw", "run", "task", t] for t in sorted(conf.get("tasks", {}))] + [["--raw", "run", "pipeline", p] for p in sorted(conf.get("pipelines", {}))]
             for cmd in cmds:
                 if text is None or (key in norun and cmd[0] == "--raw"):
                     continue
-                jobs.append({"id": len(jobs), "files": {fn: text, "a.txt": "x", "b.txt": "y"}, "argv": ["-c", fn] + cmd, "timeout": 20, "keep": ["out"]})
+                jobs.append({"id": len(jobs), "files": dict({fn: text, "a.txt": "x", "b.txt": "y"}, **extra), "argv": ["-c", fn] + cmd, "timeout": 20, "keep": ["out"]})
                 meta.append((key, fmt, " ".join(cmd)))
     out = clilib.run_cli(workdir + "/" + tag, jobs, timeout=20)
     res = {}
@@ -149,6 +175,8 @@ def observe(workdir, tag, confs, norun=()):
             proj = (r["files"].get("out") or "", re.sub(r"in \d+(\.\d+)?(ns|µs|ms|s)|Duration[^\n]*|\d+(\.\d+)?(ns|µs|ms|s)\b", "<t>", txt))
         else:
             proj = txt                      # list / show: compared as printed (the Timeout line included)
+        if r["rc"] not in (0, None) and not cmd.startswith("--raw"):
+            proj = "<rejected>"             # the wording of an error message is not compared, only that all three files are rejected
         err = (r.get("err") or "")
         errclass = "crash" if clilib.crashed(r) else ("timeout" if r["timeout"] else "")
         res.setdefault(key, {}).setdefault(fmt, {})[cmd] = (r["rc"], proj, errclass)
@@ -229,6 +257,8 @@ def run(ctx):
             res.count("configuration")
             res.nontrivial_keys.add(json.dumps(cf, sort_keys=True))
             case = {"kind": "conf", "conf": cf}
+            if o.get("yaml", {}).get("list", (1,))[0] == 0:
+                res.extra["configurations_accepted"] = res.extra.get("configurations_accepted", 0) + 1
             if any(v[2] for f in o.values() for v in f.values()):
                 res.violations.append({"class": None, "what": "loading or running crashed / hung in some format", "case": case, "observed": str({f: {c: v for c, v in d.items() if v[2]} for f, d in o.items()})[:1500]})
                 continue
